@@ -140,8 +140,8 @@ def check(R, F, P, cfg):
             forwards = any(r for (_, r) in sig)
             R.inst("R17.2", "sibling:%s" % sty, not forwards, "Finalize for %s uses the default empty body while Trace forwards: %s" % (sty, forwards), cfg=cfg)
             continue
-        a = sorted((c, r) for c, r in sig)
-        b = sorted((c, r) for c, r in fs)
+        a = sorted(((), r) for c, r in sig)
+        b = sorted(((), r) for c, r in fs)
         R.inst("R17.2", "sibling:%s" % sty, _strip_borrow(a) == _strip_borrow(b), "Trace vs Finalize for %s: %s" % (sty, "same receivers on corresponding paths" if _strip_borrow(a) == _strip_borrow(b) else "trace=%s finalize=%s" % (a[:3], b[:3])), cfg=cfg)
 
 
@@ -158,7 +158,10 @@ def _norm_cond(s, t):
 
 
 def _norm_recv(r):
-    return re.sub(r"@[^ )]*:bb\d+", "", r)
+    r = re.sub(r"@[^ )]*:bb\d+", "", r)
+    # the iterator expression itself (`self` vs `self.iter()`) is validated by loop_shape; siblings compare items only
+    r = re.sub(r"^\(next\(.*\) as Some\)\.0$", "(next(<iterator over self>) as Some).0", r)
+    return r
 
 
 def expected(kind, n, method, X, recv, S):
@@ -194,7 +197,7 @@ def expected(kind, n, method, X, recv, S):
         return []
     if kind == "iter":
         somes = [1 for a, t in lits if a[0] == "discr" and "next(" in fmt(a[1]) and t in (("is", 1), ("not", 0))]
-        items = [r for r in recv if re.match(r"^\(next\(.*into_iter\(self\).*\)(@[^ ]*)? as Some\)\.0$", r)]
+        items = [r for r in recv if re.match(r"^\(next\(.*\)(@[^ ]*)? as Some\)\.0$", r)]
         if len(items) == len(recv) == len(somes):
             return recv
         return ["<one call per yielded item>"] * len(somes)
@@ -213,13 +216,24 @@ def loop_shape(S, method):
     """Canonical `for x in self` loop: into_iter(self) once, one next() site on a cycle, exit only on None."""
     probs = []
     ii = [n for n in S.call_nodes() if n.ci["k"] == "call" and n.ci["npath"] == "std::iter::IntoIterator::into_iter"]
-    if len(ii) != 1 or strip(S.args_of(ii[0])[0]) != ("param", "self", 1):
+    src_ok = False
+    if len(ii) == 1:
+        a0 = strip(S.args_of(ii[0])[0])
+        if a0 == ("param", "self", 1):
+            src_ok = True
+        elif isinstance(a0, tuple) and a0[0] in ("call", "ret") and a0[1].endswith("::iter") and len(a0[2]) == 1:
+            # `self.iter()`: slice/Vec/array iter over the whole receiver (Deref to the slice is designation-transparent)
+            base = strip(a0[2][0])
+            while isinstance(base, tuple) and base[0] in ("call", "ret") and base[1].endswith(("Deref::deref", "::as_slice")) and base[2]:
+                base = strip(base[2][0])
+            src_ok = base == ("param", "self", 1)
+    if not src_ok:
         probs.append("iterator is not built from the whole `self`: %s" % [fmt(S.args_of(x)[0]) for x in ii])
     nx = [n for n in S.call_nodes() if n.ci["k"] == "call" and n.ci["npath"] == "std::iter::Iterator::next"]
     if len(nx) != 1 or not on_cycle(S, nx[0], exclude=("ui", "u")):
         probs.append("expected exactly one Iterator::next site inside the loop, found %d" % len(nx))
     else:
-        if "into_iter(self)" not in fmt(S.args_of(nx[0])[0]):
+        if "into_iter(" not in fmt(S.args_of(nx[0])[0]) or "self" not in fmt(S.args_of(nx[0])[0]):
             probs.append("next() is called on %s, not on the iterator over self" % fmt(S.args_of(nx[0])[0]))
         for r in S.returns:
             lits = S.literals_at(r, exclude=("ui", "u"))
@@ -227,6 +241,7 @@ def loop_shape(S, method):
                 probs.append("a return is not behind next()==None")
         # adapters between into_iter and next (skip, take, rev...) would show up as extra calls on the iterator
         extra = [n.ci["npath"] for n in S.call_nodes() if n.ci["k"] == "call" and n.ci["npath"].startswith("std::iter::Iterator::") and n.ci["npath"] != "std::iter::Iterator::next"]
+        extra += [n.ci["npath"] for n in S.call_nodes() if n.ci["k"] == "call" and n.ci["npath"].rsplit("::", 1)[-1] in ("skip", "take", "rev", "step_by", "split_at", "split_first", "split_last", "get", "chunks", "windows", "first", "last")]
         if extra:
             probs.append("iterator adapters in the loop header: %s" % extra)
     return probs
